@@ -11,6 +11,7 @@ from __future__ import annotations
 
 import copy
 import itertools
+import re
 import warnings
 
 from hypothesis import strategies as st
@@ -43,6 +44,8 @@ SHAPES = {
     "dotkey": ('d["a.b"]', ["d", ("a.b",)]),
     "quotekey": ('d["q\\"r"]', ["d", ('q"r',)]),
     "squote": ("d['k']", ["d", ("k",)]),
+    "item_attr": ('d["k"].x', ["d", ("k",), "x"]),       # an attribute behind an item lookup
+    "squote_dotkey": ("d['a.b']", ["d", ("a.b",)]),      # a period inside a single-quoted key
 }
 FALLBACKS = {"none": None, "imm": 9, "mut": [1]}
 _CLS = {}
@@ -54,6 +57,10 @@ class Holder:
 
 
 def _double(v):
+    if v == 7 and not isinstance(v, bool):
+        # a transform that fails with AttributeError on one particular target value: the error is the transform's, the target
+        # exists - no fallback applies ("any errors retrieving the underlying aliased attribute value are passed through")
+        raise AttributeError("'int' object has no attribute 'name'")
     return ("doubled", None) if v is None else v * 2  # total over everything a target may hold, incl. None
 
 
@@ -171,7 +178,12 @@ def run_seq(ctx, case):
             if fb is not None:
                 return "ok", fb, True
             return "raise", AttributeError, False
-        return "ok", (_double(v) if cfg["transform"] else v), False
+        if cfg["transform"]:
+            try:
+                return "ok", _double(v), False
+            except AttributeError:
+                return "raise", AttributeError, False
+        return "ok", v, False
 
     def do(fn):
         with warnings.catch_warnings(record=True) as w:
@@ -428,6 +440,25 @@ class _Any:
         return _Any(self._trace + (("key", key),))
 
 
+_ID = r"[A-Za-z_][A-Za-z0-9_]*"
+_KEY = r"\[\"(?:[^\"\\]|\\.)*\"\]|\['(?:[^'\\]|\\.)*'\]"
+DOCUMENTED_PATH = re.compile(rf"(?:{_ID}|{_KEY})(?:\.{_ID}|{_KEY})*")
+
+
+def _keys_are_literals(path):
+    import ast
+
+    for m in re.finditer(_KEY, path):
+        try:
+            with warnings.catch_warnings():
+                warnings.simplefilter("ignore")
+                if not isinstance(ast.literal_eval(m.group(0)[1:-1]), str):
+                    return False
+        except (SyntaxError, ValueError):
+            return False
+    return True
+
+
 def run_path(ctx, case):
     from spec_classes.types import Alias
 
@@ -435,6 +466,9 @@ def run_path(ctx, case):
     try:
         alias = Alias(path)
     except ValueError:
+        if DOCUMENTED_PATH.fullmatch(path) and _keys_are_literals(path):
+            ctx.fail("path:rejects_valid", case, f"Alias({path!r}) raised ValueError although the path is made of attribute names, periods and quoted-key item lookups only")
+            return
         ctx.count("path:rejected")
         ctx.case(case, False)
         return
